@@ -12,18 +12,31 @@ Local Open Scope R_scope.
 Definition push_verts (vs : list V) (p : V) : res (list V) :=
   let n := length vs in
   if Nat.leb 2 n then
+    if vcompare (vnth vs (n - 2)) p then Ok (removelast vs) else
     do col <- is_collinear (vnth vs (n - 2)) (vnth vs (n - 1)) p;
     Ok (if col then replace_last vs p else vs ++ [p])
   else Ok (vs ++ [p]).
+
+(** a corner that fails the collinearity test has three pairwise distinct points (for [compare]) *)
+Lemma is_collinear_false_distinct (a b c : V) :
+  is_collinear a b c = Ok false -> vcompare a b = false /\ vcompare a c = false /\ vcompare b c = false.
+Proof.
+  unfold is_collinear. destruct (vcompare a b); destruct (vcompare a c); destruct (vcompare b c); cbn [andb orb]; try discriminate.
+  intros _. repeat split.
+Qed.
 
 Lemma set_normal_verts (L L' : Loop R) : loop_set_normal L = Ok L' -> verts L' = verts L.
 Proof. unfold loop_set_normal. destruct (verts L) as [|a [|b [|c r]]] eqn:E; try discriminate. intros H. injection H as H. subst L'. cbn [verts set_normal_field]. exact E. Qed.
 
 Lemma push_ok_verts (L L' : Loop R) (p : V) : loop_push L p = Ok L' -> push_verts (verts L) p = Ok (verts L').
 Proof.
-  unfold loop_push, loop_push_gen, push_verts, llen. destruct (valid_to_add L p); cbn [rbind]; try discriminate.
+  unfold loop_push, loop_push_gen, loop_push_gen2, push_verts, llen. cbn [negb andb]. destruct (valid_to_add L p); cbn [rbind]; try discriminate.
   destruct (Nat.leb 2 (length (verts L))).
-  - destruct (is_collinear _ _ p) as [col| |]; cbn [rbind]; try discriminate.
+  - destruct (vcompare _ p).
+    { cbn [rbind]. match goal with |- context [if ?b then loop_set_normal ?x else _] => destruct b end; intros H.
+      + apply set_normal_verts in H. rewrite H. reflexivity.
+      + injection H as H. subst L'. reflexivity. }
+    destruct (is_collinear _ _ p) as [col| |]; cbn [rbind]; try discriminate.
     match goal with |- context [if ?b then loop_set_normal ?x else _] => destruct b end; intros H.
     + apply set_normal_verts in H. rewrite H. reflexivity.
     + injection H as H. subst L'. reflexivity.
@@ -40,12 +53,12 @@ Proof.
   - replace (length l + 2 - 2)%nat with (length l + 0)%nat by lia. rewrite app_nth2_plus. reflexivity.
   - replace (length l + 2 - 1)%nat with (length l + 1)%nat by lia. rewrite app_nth2_plus. reflexivity.
 Qed.
-Lemma push_verts_last2 (l : list V) (x a p : V) :
+Lemma push_verts_last2 (l : list V) (x a p : V) : vcompare x p = false ->
   push_verts (l ++ [x; a]) p = do col <- is_collinear x a p; Ok (if col then l ++ [x; p] else l ++ [x; a; p]).
 Proof.
-  unfold push_verts. destruct (vnth_last2 l x a) as [E1 E2]. rewrite E1, E2.
+  intros Hxp. unfold push_verts. destruct (vnth_last2 l x a) as [E1 E2]. rewrite E1, E2.
   assert (Hl : Nat.leb 2 (length (l ++ [x; a])) = true) by (apply Nat.leb_le; rewrite app_length; cbn [length]; lia).
-  rewrite Hl. destruct (is_collinear x a p) as [col| |]; cbn [rbind]; try reflexivity.
+  rewrite Hl, Hxp. destruct (is_collinear x a p) as [col| |]; cbn [rbind]; try reflexivity.
   destruct col.
   - unfold replace_last. replace (l ++ [x; a]) with ((l ++ [x]) ++ [a]) by (rewrite <- app_assoc; reflexivity).
     rewrite removelast_last. rewrite <- app_assoc. reflexivity.
@@ -80,10 +93,11 @@ Theorem push_via_edge_point (L L1 L2 L2' : Loop R) (l : list V) (x a b : V) (s :
 Proof.
   cbn zeta. intros Hv C1 C2 Hc P1 P2 P3.
   apply push_ok_verts in P1. apply push_ok_verts in P2. apply push_ok_verts in P3.
-  rewrite Hv in P1, P3. rewrite push_verts_last2 in P1, P3. rewrite C1 in P1. rewrite C2 in P3. cbn [rbind] in P1, P3.
+  destruct (is_collinear_false_distinct _ _ _ C1) as (_ & Dxm & _). destruct (is_collinear_false_distinct _ _ _ C2) as (_ & Dxb & Dab).
+  rewrite Hv in P1, P3. rewrite push_verts_last2 in P1 by exact Dxm. rewrite push_verts_last2 in P3 by exact Dxb. rewrite C1 in P1. rewrite C2 in P3. cbn [rbind] in P1, P3.
   injection P1 as P1. injection P3 as P3.
   rewrite <- P1 in P2. replace (l ++ [x; a; vadd a (vscale (vsub b a) s)]) with ((l ++ [x]) ++ [a; vadd a (vscale (vsub b a) s)]) in P2 by (rewrite <- app_assoc; reflexivity).
-  rewrite push_verts_last2 in P2. rewrite (is_collinear_on_line a b s Hc) in P2. cbn [rbind] in P2. injection P2 as P2.
+  rewrite push_verts_last2 in P2 by exact Dab. rewrite (is_collinear_on_line a b s Hc) in P2. cbn [rbind] in P2. injection P2 as P2.
   rewrite <- app_assoc in P2. cbn [app] in P2. split; [symmetry; exact P2|]. rewrite <- P3, <- P2. reflexivity.
 Qed.
 
@@ -129,10 +143,10 @@ Proof.
       - (* one vertex *) cbn [app] in Ea. rewrite Ea in E. cbn in E. injection E as E. rewrite Ea. symmetry. exact E.
       - destruct (exists_last (l := u' :: l')) as [l'' [x Ex]]; [discriminate|].
         rewrite Ex in Ea. rewrite <- app_assoc in Ea. cbn [app] in Ea. rewrite Ea in E, G |- *.
-        rewrite push_verts_last2 in E.
         assert (C : is_collinear x a p = Ok false).
         { apply (genuine_chain_app_last2 l''). apply (genuine_chain_prefix _ pts).
           rewrite <- !app_assoc in G |- *. cbn [app] in G |- *. exact G. }
+        rewrite push_verts_last2 in E by (apply (is_collinear_false_distinct _ _ _ C)).
         rewrite C in E. cbn [rbind] in E. injection E as E. rewrite <- E. rewrite <- app_assoc. reflexivity. }
     rewrite (IH L1 L'); [rewrite E1, <- app_assoc; reflexivity | rewrite E1, <- app_assoc; exact G | exact H].
 Qed.
